@@ -40,28 +40,48 @@ theorem go_outcome_append (cfg : Cfg) (ph : Phase) (pre rest : List Resp) :
 
 -- invariant of the Block1 loop ---------------------------------------------------------------
 
-/-- The cursor stays inside the payload and a transfer that was fragmented stays fragmented. -/
+/-- The cursor stays inside the payload (or the payload is empty and the request is block 0 of
+it: only with the Block1 size hint) and a transfer that was fragmented stays fragmented. -/
 structure B1Inv (cfg : Cfg) (st : B1State) : Prop where
   szx_le : st.szx ≤ 7
   bert : st.szx = 7 → 1024 ≤ cfg.maxPayload
-  inside : cfg.payload.length > threshold cfg st.szx →
-    st.cursor * unit st.szx < cfg.payload.length
-  whole : ¬ cfg.payload.length > threshold cfg st.szx → st.cursor = 0
+  inside : fragmented cfg st.szx = true →
+    st.cursor * unit st.szx < cfg.payload.length ∨ (st.cursor = 0 ∧ cfg.payload.length = 0)
+  whole : ¬ fragmented cfg st.szx = true → st.cursor = 0
 
-/-- the configurations the theorems are about: a maximum exponent 0..7, and a remote that does
-BERT (7) takes at least 1 KiB of payload (RFC 8323: BERT needs a Max-Message-Size above 1152;
-`rfc8323common.maximum_payload_size` is never below 1124) -/
+/-- the configurations the theorems are about: the exponent the Block1 loop starts with (the
+remote's maximum, or the application's deprecated Block1 size hint) is 0..7, and when it is 7
+(BERT) the remote takes at least 1 KiB of payload (RFC 8323: BERT needs a Max-Message-Size above
+1152; `rfc8323common.maximum_payload_size` is never below 1124) -/
 structure Cfg.Ok (cfg : Cfg) : Prop where
-  szx_le : cfg.szx0 ≤ 7
-  bert : cfg.szx0 = 7 → 1024 ≤ cfg.maxPayload
+  szx_le : startSzx cfg ≤ 7
+  bert : startSzx cfg = 7 → 1024 ≤ cfg.maxPayload
 
-theorem B1Inv.start {cfg : Cfg} (h : cfg.Ok) : B1Inv cfg { szx := cfg.szx0, cursor := 0 } :=
-  ⟨h.szx_le, h.bert, fun hf => by simp; omega, fun _ => rfl⟩
+/-- without the Block1 hint that is: the remote's maximum is 0..7, and ≥ 1 KiB payload for BERT -/
+theorem Cfg.Ok.of_remote {cfg : Cfg} (hh : cfg.hint1 = none) (h7 : cfg.szx0 ≤ 7)
+    (hb : cfg.szx0 = 7 → 1024 ≤ cfg.maxPayload) : cfg.Ok := by
+  have : startSzx cfg = cfg.szx0 := by simp [startSzx, hh]
+  exact ⟨by rw [this]; exact h7, by rw [this]; exact hb⟩
+
+theorem B1Inv.start {cfg : Cfg} (h : cfg.Ok) : B1Inv cfg { szx := startSzx cfg, cursor := 0 } :=
+  ⟨h.szx_le, h.bert, fun _ => by
+      by_cases h0 : cfg.payload.length = 0
+      · exact Or.inr ⟨rfl, h0⟩
+      · exact Or.inl (by show 0 * _ < _; rw [Nat.zero_mul]; omega),
+    fun _ => rfl⟩
+
+theorem fragmented_of_hint {cfg : Cfg} (h : cfg.hint1.isSome = true) (s : Nat) :
+    fragmented cfg s = true := by
+  simp [fragmented, h]
+
+theorem fragmented_iff {cfg : Cfg} (h : cfg.hint1.isSome = false) (s : Nat) :
+    fragmented cfg s = true ↔ cfg.payload.length > threshold cfg s := by
+  simp [fragmented, h]
 
 /-- the request of a round, in closed form -/
 theorem nextRequest_eq {cfg : Cfg} {st : B1State} (h : B1Inv cfg st) :
     nextRequest cfg st =
-      if cfg.payload.length > threshold cfg st.szx then
+      if fragmented cfg st.szx = true then
         some { block1 := some { num := st.cursor,
                                 more := decide (st.cursor * unit st.szx + blk cfg.maxPayload st.szx
                                                   < cfg.payload.length),
@@ -71,7 +91,7 @@ theorem nextRequest_eq {cfg : Cfg} {st : B1State} (h : B1Inv cfg st) :
                payload := (cfg.payload.drop (st.cursor * unit st.szx)).take (blk cfg.maxPayload st.szx) }
       else some { block1 := none, block2 := hintOpt cfg, size1 := none, payload := cfg.payload } := by
   unfold nextRequest
-  by_cases hf : cfg.payload.length > threshold cfg st.szx
+  by_cases hf : fragmented cfg st.szx = true
   · simp only [hf, ↓reduceIte]
     rw [extractBlock_eq h.szx_le (h.inside hf)]
   · simp [hf]
@@ -80,7 +100,7 @@ theorem enterB1_of_inv {cfg : Cfg} {st : B1State} (h : B1Inv cfg st) :
     ∃ cur, nextRequest cfg st = some cur ∧ enterB1 cfg st = .b1 st cur := by
   unfold enterB1
   rw [nextRequest_eq h]
-  by_cases hf : cfg.payload.length > threshold cfg st.szx <;> simp [hf]
+  by_cases hf : fragmented cfg st.szx = true <;> simp [hf]
 
 theorem threshold_small {cfg : Cfg} {s : Nat} (h : s < 6) : threshold cfg s = blockSize s := by
   unfold threshold blockSize
@@ -93,12 +113,12 @@ block, and the cursor advanced by `advance` stands at the end of the block -/
 theorem b1_cur_facts {cfg : Cfg} {st : B1State} {cur : Req} (hinv : B1Inv cfg st)
     (hcur : nextRequest cfg st = some cur) :
     cur.block2 = hintOpt cfg ∧ ((sentBlock1 st cur).more = true →
-      cfg.payload.length > threshold cfg st.szx ∧
+      fragmented cfg st.szx = true ∧
       st.cursor * unit st.szx + blk cfg.maxPayload st.szx < cfg.payload.length ∧
       advance st cur * unit st.szx = st.cursor * unit st.szx + blk cfg.maxPayload st.szx) := by
   rw [nextRequest_eq hinv] at hcur
-  by_cases hf : cfg.payload.length > threshold cfg st.szx
-  · simp only [hf, ↓reduceIte, Option.some.injEq] at hcur
+  by_cases hf : fragmented cfg st.szx = true
+  · simp only [hf, Bool.false_eq_true, ↓reduceIte, Option.some.injEq] at hcur
     subst hcur
     refine ⟨rfl, fun hsm => ?_⟩
     have hm : st.cursor * unit st.szx + blk cfg.maxPayload st.szx < cfg.payload.length := by
@@ -115,7 +135,7 @@ theorem b1_cur_facts {cfg : Cfg} {st : B1State} {cur : Req} (hinv : B1Inv cfg st
     · have h6 : st.szx ≤ 6 := by have := hinv.szx_le; omega
       simp only [h7, ↓reduceIte]
       rw [blk_le6 h6, unit_le6 h6, Nat.add_mul, Nat.one_mul]
-  · simp only [hf, ↓reduceIte, Option.some.injEq] at hcur
+  · simp only [hf, Bool.false_eq_true, ↓reduceIte, Option.some.injEq] at hcur
     subst hcur
     exact ⟨rfl, fun hsm => by simp [sentBlock1] at hsm⟩
 
@@ -134,7 +154,11 @@ theorem B1Inv.next {cfg : Cfg} {st : B1State} {cur : Req} (h : B1Inv cfg st)
   have hin : (reduceB t st.szx (advance st cur)).2 * unit (reduceB t st.szx (advance st cur)).1
       < cfg.payload.length := by
     rw [hoff, hadv]; exact hmore
-  have hfrag : cfg.payload.length > threshold cfg (reduceB t st.szx (advance st cur)).1 := by
+  have hfrag : fragmented cfg (reduceB t st.szx (advance st cur)).1 = true := by
+    by_cases hh : cfg.hint1.isSome = true
+    · exact fragmented_of_hint hh _
+    have hh' : cfg.hint1.isSome = false := by simpa using hh
+    rw [fragmented_iff hh'] at hf ⊢
     by_cases h6 : (reduceB t st.szx (advance st cur)).1 < 6
     · rw [threshold_small h6]
       have h1 : blockSize (reduceB t st.szx (advance st cur)).1 ≤ unit st.szx := by
@@ -146,7 +170,7 @@ theorem B1Inv.next {cfg : Cfg} {st : B1State} {cur : Req} (h : B1Inv cfg st)
         unfold threshold
         rw [if_pos (by omega), if_pos (by omega)]
       rw [this]; exact hf
-  refine ⟨?_, fun h7' => h.bert ?_, fun _ => hin, fun hn => absurd hfrag hn⟩
+  refine ⟨?_, fun h7' => h.bert ?_, fun _ => Or.inl hin, fun hn => absurd hfrag hn⟩
   · show (reduceB t st.szx (advance st cur)).1 ≤ 7
     omega
   · have h7'' : (reduceB t st.szx (advance st cur)).1 = 7 := h7'
